@@ -175,7 +175,29 @@ Theorem C16_every_acquired_holds_a_token :
 Proof. exact server_client_bound. Qed.
 Print Assumptions C16_every_acquired_holds_a_token.
 
+(* Start-up.  Whatever jobserver the environment announces (any R,W or none), whatever descriptors are open when
+   the server process starts (announced ones inherited or not), if every `discard_inherited_jobserver()` of the
+   start-up sequence comes before the server's client is created, the client's token pipe is intact afterwards:
+   both ends open and still the pool's.  The start-up sequence of the CURRENT source is regenerated on every run by
+   translator/c16_startup.py (Gen/C16Startup.v) and `startup_ok` of it is re-proved (Gen/C16Startup_ok.v). *)
+Theorem C16_pool_survives_startup :
+  forall (announced : option (N * N)) (open0 : list N) (acts : list sact),
+  startup_ok acts = true ->
+  let s := startup announced open0 acts in
+  pool_alive s = true /\ exists r w, pool_fds s = Some (r, w) /\ In r (open_fds s) /\ In w (open_fds s).
+Proof. exact pool_survives_startup. Qed.
+Print Assumptions C16_pool_survives_startup.
+
 (* ---------------------------------------------------------------- non-vacuity *)
+
+(* the order matters: a discard after the client, with R,W = 3,4 announced but not inherited (an ordinary recipe of
+   GNU make <= 4.3), closes the pool's own pipe; with 3,4 really inherited the same wrong order goes unnoticed *)
+Example C16_discard_after_client_destroys_the_pool :
+  pool_alive (startup (Some (3, 4)) [0; 1; 2] [SNewClient; SDiscard]) = false /\
+  pool_alive (startup (Some (3, 4)) [0; 1; 2; 3; 4] [SNewClient; SDiscard]) = true /\
+  pool_alive (startup (Some (3, 4)) [0; 1; 2] [SDiscard; SNewClient]) = true.
+Proof. vm_compute. auto. Qed.
+
 
 (* the `inherited` branch of `_new` would NOT do: every one of m simultaneous acquisitions is granted, all empty *)
 Example C16_inherited_mode_is_unbounded :
